@@ -196,6 +196,8 @@ class TypeWalk:
 # engine.Slice with one more attribute, `mut_blocks` (blocks of the mutating calls/stores).
 from .engine import Slice, _proj_compatible, _projkey
 
+# calls through `&mut acc` that change only the capacity of an accumulator, never its content: not a definition of `acc`
+ACC_CAPACITY_ONLY = r"(Vec::<T, A>|VecDeque::<T, A>|String|IndexMap::<K, V, S>|IndexSet::<T, S>|HashMap::<K, V, S, A>|HashSet::<T, S, A>)::(reserve|reserve_exact|try_reserve|try_reserve_exact|shrink_to_fit|shrink_to)$"
 ACC_OPAQUE = r"(Vec::<T>|VecDeque::<T>|String|IndexMap::<K, V>|IndexSet::<T>|HashMap::<K, V>|BTreeMap::<K, V>)::with_capacity(_and_hasher)?$"
 
 
@@ -316,7 +318,8 @@ def pslice(fn, operand, stop_at_calls=None, mutations=True, max_nodes=8000):
     mut_blocks = set()
     stop_rx = re.compile(stop_at_calls) if stop_at_calls else None
     opaque_rx = re.compile(ACC_OPAQUE)
-    muts = mutators(fn) if mutations else []
+    cap_rx = re.compile(ACC_CAPACITY_ONLY)
+    muts = [m for m in (mutators(fn) if mutations else []) if not (m[1] == "call" and cap_rx.search(m[2].get("callee") or ""))]
     seen_calls = set()
 
     def push_pl(pl):
@@ -891,10 +894,14 @@ class ChainOps:
     from the return value, parameters not resolved: the actual arguments are already on the caller's
     slice); the sink function's own parameters are followed to its callers."""
 
-    def __init__(self, flow, no_descend=()):
+    def __init__(self, flow, no_descend=(), qualify=None):
+        """qualify(fn, call terminator) -> a more specific name for the callee, or None: lets the caller tell apart uses of
+        one std function that differ in meaning by their type arguments (`flatten` over an `Option<Vec<_>>` concatenates,
+        over an iterator of `Option`s it filters)."""
         self.flow = flow
         self.facts = flow.facts
         self.no_descend = set(no_descend)
+        self.qualify = qualify
         self._fn = {}
 
     def fn_ops(self, g, depth=0):
@@ -925,7 +932,7 @@ class ChainOps:
             elif a[0] == "param" and resolve_params:
                 out |= self._param_ops(fn, a[1], a[2], seen, depth)
         for c, bb, t in sl.callees:
-            out.add(("call", c))
+            out.add(("call", (self.qualify and self.qualify(fn, t)) or c))
             g = self.facts.F.get(c)
             if g is not None and g.raw["id"] not in self.no_descend and g.raw["kind"] != "Closure":
                 out |= self.fn_ops(g, depth)
@@ -957,7 +964,7 @@ class ChainOps:
                         out |= self._ops(p, o, seen, depth + 1, True)
                 else:
                     for cbb, t, k in fl.closure_receivers(p, st):
-                        out.add(("call", t.get("callee") or "<indirect>"))
+                        out.add(("call", (self.qualify and self.qualify(p, t)) or t.get("callee") or "<indirect>"))
                         for j, a in enumerate(t["args"]):
                             if j != k:
                                 out |= self._ops(p, a, seen, depth + 1, True)
